@@ -337,7 +337,7 @@ func (e *Engine) checkRequests(ep int) {
 					e.H.Violate("C05", "wrong-error", d.Response, fmt.Sprintf("request %d %s payload=%q: response %s, expected error %s", id, s.Op.Subject, s.Op.Payload, resp[0].Data, d.Response))
 				}
 				if d.Response != "system.internalError" {
-					msg := map[string]string{"system.notFound": "Not found", "system.methodNotFound": "Method not found"}[d.Response]
+					msg := model.StdMsg[d.Response]
 					if !model.JSONEqual(string(resp[0].Data), fmt.Sprintf(`{"error":{"code":%q,"message":%q}}`, d.Response, msg)) {
 						e.H.Violate("C05", "wrong-error-payload", d.Response, fmt.Sprintf("request %d: %s", id, resp[0].Data))
 					}
@@ -367,7 +367,7 @@ func (e *Engine) checkRequests(ep int) {
 			got := resp[0].Data
 			okPayload := true
 			if ex.Payload != "" {
-				okPayload = model.JSONEqual(string(got), ex.Payload)
+				okPayload = model.ResponseEqual(string(got), ex.Payload)
 			} else if ex.Code != "" {
 				okPayload = model.ErrorCode(got) == ex.Code
 			}
